@@ -180,15 +180,56 @@ Proof.
 Qed.
 
 (* ---------------- {8200} ---------------- *)
-(* canonical: a four-character length field, and the addenda within the length it declares *)
+(* canonical: a four-digit length field, and the addenda within the length it declares *)
 Definition ua_canonical (v : tagval) : bool :=
   match tv_elems v with
   | [len; add] =>
-      let al := parse_num_field len in
-      marker_ok (tv_marker v) && (length len =? 4) && forallb okchar len &&
-      (0 <=? al)%Z && (al <? 100000)%Z && clean (Z.to_nat al) add
+      marker_ok (tv_marker v) && (length len =? 4) && forallb is_digit len && clean (Z.to_nat (parse_num_field len)) add
   | _ => false
   end.
+
+Lemma digit_okchar d : is_digit d = true -> okchar d = true.
+Proof. destruct d; intros H; try discriminate H; reflexivity. Qed.
+
+Lemma digit_not_ws d : is_digit d = true -> is_ascii_ws d = false.
+Proof. destruct d; intros H; try discriminate H; reflexivity. Qed.
+
+Lemma digits_val_bound s : forall acc, forallb is_digit s = true ->
+  exists v, digits_val acc s = Some v /\ (acc * 10 ^ N.of_nat (length s) <= v < (acc + 1) * 10 ^ N.of_nat (length s))%N.
+Proof.
+  induction s as [|b t IH]; intros acc H; cbn [digits_val length].
+  - exists acc. split; [reflexivity|]. cbn. lia.
+  - cbn [forallb] in H. apply andb_true_iff in H as [Hb Ht]. rewrite Hb.
+    destruct (IH (acc * 10 + (bN b - 48))%N Ht) as (v & Hv & Hlo & Hhi). exists v. split; [exact Hv|].
+    assert (Hd : (bN b - 48 <= 9)%N). { destruct b; try discriminate Hb; cbn; lia. }
+    rewrite Nat2N.inj_succ, N.pow_succ_r'. split; nia.
+Qed.
+
+Lemma last_in {A} (l : list A) d : l <> [] -> In (last l d) l.
+Proof.
+  induction l as [|a r IH]; intros H; [contradiction|]. destruct r as [|c r']; [left; reflexivity|].
+  change (last (a :: c :: r') d) with (last (c :: r') d). right. apply IH. discriminate.
+Qed.
+
+Lemma digits_num_field len : forallb is_digit len = true -> length len = 4 ->
+  (0 <= parse_num_field len < 10000)%Z.
+Proof.
+  intros Hd Hl. unfold parse_num_field.
+  assert (Ho : forallb okchar len = true).
+  { rewrite forallb_forall in *. intros b Hb. apply digit_okchar. apply Hd. exact Hb. }
+  assert (Ht : trimmed len = true).
+  { destruct len as [|b t]; [reflexivity|]. unfold trimmed. rewrite forallb_forall in Hd.
+    rewrite (digit_not_ws b (Hd b (or_introl eq_refl))).
+    assert (Hlast : In (last (b :: t) b) (b :: t)) by (apply last_in; discriminate).
+    rewrite (digit_not_ws _ (Hd _ Hlast)). reflexivity. }
+  rewrite (trim_space_clean len Ho Ht).
+  destruct (digits_val_bound len 0%N Hd) as (v & Hv & Hlo & Hhi). rewrite Hl in Hhi. change (N.of_nat 4) with 4%N in Hhi.
+  unfold atoi. destruct len as [|b t]; [discriminate Hl|].
+  assert (Hb : is_digit b = true) by (cbn [forallb] in Hd; apply andb_true_iff in Hd; tauto).
+  assert (E1 : beqb b x2d = false) by (destruct b; try discriminate Hb; reflexivity).
+  assert (E2 : beqb b x2b = false) by (destruct b; try discriminate Hb; reflexivity).
+  rewrite E1, E2, Hv. split; [lia|]. change ((0 + 1) * 10 ^ 4)%N with 10000%N in Hhi. lia.
+Qed.
 
 Theorem ua_round_trip v variable : ua_canonical v = true ->
   t_parse tag_UnstructuredAddenda = [PGuard CLt 10; PTag false; PAddenda 0 1] ->
@@ -199,10 +240,11 @@ Proof.
   intros Hc Hp Hf Hne. unfold ua_canonical in Hc.
   destruct v as [mk els]. cbn [tv_elems tv_marker] in Hc.
   destruct els as [|len [|add [|x r]]]; try discriminate Hc.
-  cbv zeta in Hc. set (al := parse_num_field len) in *.
-  apply andb_true_iff in Hc as [Hc Hadd]. apply andb_true_iff in Hc as [Hc Hhi]. apply andb_true_iff in Hc as [Hc Hlo].
-  apply andb_true_iff in Hc as [Hc Hlo0]. apply andb_true_iff in Hc as [Hmk Hl4]. apply Nat.eqb_eq in Hl4.
-  apply Z.leb_le in Hlo. apply Z.ltb_lt in Hhi.
+  apply andb_true_iff in Hc as [Hc Hadd]. apply andb_true_iff in Hc as [Hc Hdig]. apply andb_true_iff in Hc as [Hmk Hl4].
+  apply Nat.eqb_eq in Hl4. set (al := parse_num_field len) in *.
+  destruct (digits_num_field len Hdig Hl4) as [Hlo Hhi']. fold al in Hlo, Hhi'. assert (Hhi : (al < 100000)%Z) by lia.
+  assert (Hlo0 : forallb okchar len = true).
+  { rewrite forallb_forall in *. intros b0 Hb0. apply digit_okchar. apply Hdig. exact Hb0. }
   destruct (clean_parts _ _ Hadd) as (La & Oa & Ta).
   unfold marker_ok in Hmk. apply andb_true_iff in Hmk as [Hmk Hmd]. apply andb_true_iff in Hmk as [Hmk Hmt].
   apply andb_true_iff in Hmk as [Hml Hma]. apply Nat.eqb_eq in Hml.
